@@ -962,3 +962,37 @@ def guards_exclusive(guards: List[tuple], assume: Optional[List[tuple]] = None) 
         if sum(truths) > 1:
             return False
     return True
+
+
+def run_with_local_pairing(build, fi_a: FuncInfo, fi_b: FuncInfo, rename_a: Dict[str, str], rename_b: Dict[str, str]):
+    """Run the comparison `build(rename_b)`; if it reports mismatches and there are locals that exist on one side only
+    (a one-sided renaming), retry with the pairings of those locals (few) and accept a pairing only if the whole
+    comparison then succeeds.  Returns the Comparer to report from."""
+    first = build(dict(rename_b))
+    first.run()
+    if not first.mismatches:
+        return first
+
+    def locals_of(fi):
+        params = {x.arg for x in fi.node.args.args}
+        return [n for n in dict.fromkeys(x.id for x in ast.walk(fi.node) if isinstance(x, ast.Name) and isinstance(x.ctx, ast.Store))
+                if n not in params]
+    la = [rename_a.get(n, n) for n in locals_of(fi_a)]
+    lb_raw = locals_of(fi_b)
+    only_a = [n for n in la if n not in [rename_b.get(x, x) for x in lb_raw]]
+    only_b = [n for n in lb_raw if rename_b.get(n, n) not in la]
+    if not only_a or not only_b or len(only_b) > 2 or len(only_a) > 7:
+        return first
+    for combo in itertools.permutations(only_a, len(only_b)):
+        ren = dict(rename_b)
+        for raw, tgt in zip(only_b, combo):
+            ren[raw] = tgt
+        c2 = build(ren)
+        try:
+            c2.run()
+        except Exception:
+            continue
+        if not c2.mismatches:
+            c2.info.append(f"{c2.title}: locals paired {dict(zip(only_b, combo))} (one-sided renaming)")
+            return c2
+    return first
